@@ -1043,6 +1043,30 @@ def range_eval(case: dict) -> _Collector:
                                    f"certainty(not in range) = {no}")
             return c
         c.honest_ok = True
+        # ---- the end points of what the verifier's own generator can draw -----------------------------------
+        # create_challenges draws s and t as (urandom(key_size/8) mod (g.mod - 1)), re-drawn while below
+        # LARGE_INTEGER: every pair from [LARGE_INTEGER, top] is a challenge an honest verifier may send
+        try:
+            from ipv8.attestation.wallet.pengbaorange.algorithm import LARGE_INTEGER
+            pub0 = alg.get_attestation_class().unserialize(public_blob, "rng")
+            top = min(2 ** (8 * (ks // 8)), pub0.PK.g.mod - 1) - 1
+            L, r = LARGE_INTEGER, LARGE_INTEGER + 1 + env.rng.randrange(max(1, top - LARGE_INTEGER))
+            pairs = [(L, L), (L, r), (r, L), (top, top), (L + 1, top - 1), (top, L), (L, top)] if top > L + 1 else []
+            for s, t in pairs:
+                ch = pack_pair(s, t)
+                agg = alg.create_certainty_aggregate(pub0)
+                alg.process_challenge_response(agg, ch, honest(ch))
+                yes, no = alg.certainty(b"\x01", agg), alg.certainty(b"\x00", agg)
+                if yes != 1.0 or no != 0.0:
+                    c.fail("R1", "honest:edge_challenge",
+                           f"honest proof of {value} in [{a}, {b}] is not accepted for the challenge (s, t) = ({s}, {t}), "
+                           f"which the verifier's generator can draw from [{LARGE_INTEGER}, {top}]: certainty(in range) "
+                           f"= {yes}, certainty(not in range) = {no}")
+                    return c
+                c.count("c:edge_challenge")
+        except Exception as e:
+            c.fail("R1", "honest:edge_challenge", f"honest proof of {value} in [{a}, {b}] raised {e!r} for an end-point challenge")
+            return c
 
         def rejected(kind: str, clause: str, what: str, fn) -> None:
             try:
